@@ -75,7 +75,17 @@ func compare(sent, got any) *diff {
 				}
 				cls := lenClass(fa.Len())
 				if fa.Len() == 1 {
-					cls += "[" + scalarTag(fa.Index(0)) + "]"
+					// for a lost / multiplied single element only three classes matter
+					e := "other"
+					if fa.Index(0).Kind() == reflect.String {
+						switch s := fa.Index(0).String(); {
+						case s == "":
+							e = "empty"
+						case strings.Contains(s, ","):
+							e = "has-comma"
+						}
+					}
+					cls += "[" + e + "]"
 				}
 				return &diff{name, "slice", cls, how}
 			}
@@ -163,4 +173,41 @@ func fieldClass(v any, i int) (name, kind, class string) {
 		return
 	}
 	return name, f.Kind().String(), scalarTag(f)
+}
+
+// interesting: does v hold anything an encoder/decoder pair can get wrong?
+func interesting(v any) bool {
+	a := reflect.ValueOf(v)
+	scalar := func(e reflect.Value) bool {
+		switch e.Kind() {
+		case reflect.String:
+			s := e.String()
+			if s == "" {
+				return false // as a scalar: the zero value
+			}
+			for i := 0; i < len(s); i++ {
+				c := s[i]
+				if !(c >= '0' && c <= '9' || c >= 'a' && c <= 'z' || c >= 'A' && c <= 'Z') {
+					return true
+				}
+			}
+			return len(s) > 100
+		case reflect.Bool:
+			return false
+		default:
+			t := scalarTag(e)
+			return t != "small" && t != "plain" && t != "zero"
+		}
+	}
+	for i := 0; i < a.NumField(); i++ {
+		f := a.Field(i)
+		if f.Kind() == reflect.Slice {
+			if f.Len() > 0 {
+				return true
+			}
+		} else if scalar(f) {
+			return true
+		}
+	}
+	return false
 }
